@@ -1066,6 +1066,7 @@ func (sc *c16BGV) runRefresh(d *c16Deploy, ct *rlwe.Ciphertext, m []uint64, inNo
 	want := append([]uint64{}, m...)
 	name := "Refresh"
 	var lin *c16Lin
+	rawOut := false
 	if withTransform {
 		name = "MaskedTransform"
 		lin = drawLin(ch, len(m), sc.T)
@@ -1078,6 +1079,28 @@ func (sc *c16BGV) runRefresh(d *c16Deploy, ct *rlwe.Ciphertext, m []uint64, inNo
 			}
 		}
 		lin.apply(want, sc.T)
+		if tf.Decode && ch.Chance("transform-mixed-flags", 1, 4) {
+			// the flags both ways: a function of the decoded slots whose output is taken as the plaintext
+			// polynomial as it is (decode only), or a function of the plaintext polynomial whose output is encoded
+			// (encode only). The oracle works on the plaintext polynomial modulo T ("raw"), which needs no reading
+			// of the output's metadata in the first case.
+			if ch.Bool("decode-only") {
+				tf.Encode = false
+				rawOut = true
+				ctx.Count("probe.transform-decode-only", 1)
+			} else {
+				tf.Decode = false
+				pt := bgv.NewPlaintext(bp, ct.Level())
+				*pt.MetaData = *ct.MetaData
+				pt.IsNTT = true
+				if err := sc.enc.Encode(m, pt); err != nil {
+					ctx.Harness("encode: %v", err)
+				}
+				want = sc.rawOf(ctx, pt)
+				lin.apply(want, sc.T)
+				ctx.Count("probe.transform-encode-only", 1)
+			}
+		}
 	}
 	mt0, err := mpbgv.NewMaskedTransformProtocol(bp, bpOut, d.noise)
 	if err != nil {
@@ -1187,11 +1210,35 @@ func (sc *c16BGV) runRefresh(d *c16Deploy, ct *rlwe.Ciphertext, m []uint64, inNo
 		return true
 	}
 	ctx.Count("oracle.message-model", 1)
+	if rawOut {
+		have := scOut.rawOf(ctx, bgv.NewDecryptor(scOut.params, idealOut).DecryptNew(out))
+		for i := range want {
+			if have[i] != want[i] {
+				ctx.Fail("message", name+"|result-decode-only", "%s by %d parties with a transform that decodes and does not encode (f=%v): coefficient %d of the output plaintext modulo T is %d, f(message) has %d there", name, d.n, lin, i, have[i], want[i])
+				return false
+			}
+		}
+		return true
+	}
 	if ok, w := scOut.decodeEq(ctx, out, idealOut, want); !ok {
-		ctx.Fail("message", name+"|result", "%s by %d parties (input level %d, decryption level %d, output level %d, f=%v, decode/encode=%v): %s", name, d.n, level, minLevel, outLevel, lin, tf != nil && tf.Decode, w)
+		ctx.Fail("message", name+"|result", "%s by %d parties (input level %d, decryption level %d, output level %d, f=%v, decode=%v encode=%v): %s", name, d.n, level, minLevel, outLevel, lin, tf != nil && tf.Decode, tf != nil && tf.Encode, w)
 		return false
 	}
 	return true
+}
+
+// rawOf returns the plaintext polynomial modulo T (no scale removed, no decoding).
+func (sc *c16BGV) rawOf(ctx *core.RunCtx, pt *rlwe.Plaintext) []uint64 {
+	q := *pt
+	md := *pt.MetaData
+	q.MetaData = &md
+	q.IsBatched = false
+	q.Scale = sc.params.NewScale(1)
+	have := make([]uint64, sc.params.RingT().N())
+	if err := sc.enc.Decode(&q, have); err != nil {
+		ctx.Harness("raw decode: %v", err)
+	}
+	return have
 }
 
 func (f *c16Lin) String() string {
